@@ -1,5 +1,7 @@
 import SslModel.Model.Int64
 import SslModel.Gen.ScalarOps
+import SslModel.Model.Pratt
+import SslModel.Gen.PrattTable
 /-! Model side of the correspondence: one request per line on stdin, one canonical answer per
     line on stdout.  Import-free apart from the model, so it links as a native executable. -/
 open Ssl
@@ -80,8 +82,32 @@ def floatOp (name : String) (a b : Float) : Option String :=
   | some "fge" => some (showBool (a ≥ b))
   | _ => none
 
+def prattTable : Pratt.Table := Pratt.mkTable Gen.prattLevels
+
+def prattToks (rules : List String) : List Pratt.Tok :=
+  let rec go (rs : List String) (n : Nat) : List Pratt.Tok :=
+    match rs with
+    | [] => []
+    | r :: rest =>
+      if (prattTable.get r).isNone then ⟨r, n + 1⟩ :: go rest (n + 1) else ⟨r, 0⟩ :: go rest n
+  go rules 0
+
+def showPrattTree : Pratt.Tree → String
+  | .prim t => s!"{t.rule}{t.id}"
+  | .pre op r => s!"({op.rule} {showPrattTree r})"
+  | .post l op => s!"({showPrattTree l} {op.rule})"
+  | .bin l op r => s!"({showPrattTree l} {op.rule} {showPrattTree r})"
+
+def handlePratt (rules : List String) : String :=
+  match Pratt.parse prattTable (prattToks rules) with
+  | .ok t => showPrattTree t
+  | .panicEmpty => "(panic empty)" | .panicNud t => s!"(panic nud {t.rule})"
+  | .panicLed t => s!"(panic led {t.rule})" | .panicLbp t => s!"(panic lbp {t.rule})"
+  | .fuel => "(fuel)"
+
 def handle (line : String) : String :=
   match line.trimAscii.toString.splitOn " " with
+  | "pratt" :: rules => handlePratt rules
   | ["scalar", op, a, b] =>
     match scalarOp op, a.toInt?, b.toInt? with
     | some o, some x, some y => showScalar (o.interp (BitVec.ofInt 64 x) (BitVec.ofInt 64 y))
